@@ -111,7 +111,7 @@ class CallMixin(CompMixin):
         if name in ("float", "int", "str", "bool"):
             return self.convert(st, name, a, node)
         if name == "isinstance":
-            return VBool(self.isinstance(st, a[0], a[1]))
+            return VBool(self.isinstance_t(st, a[0], a[1]))
         if name == "hasattr":
             ok, nm = pyconst(a[1])
             return VBool(self.hasattr(st, a[0], nm))
@@ -174,6 +174,11 @@ class CallMixin(CompMixin):
         raise Unsupported(f"builtin {name}")
 
     def pytype_name(self, st, v):
+        if isinstance(v, VDyn):
+            alts = self.dyn_alts(st, v)
+            if len(alts) == 1:
+                return self.pytype_name(st, alts[0][2])
+            raise Unsupported("type() of a value whose dynamic type is not determined")
         if isinstance(v, VBool):
             return "bool"
         if isinstance(v, VInt):
@@ -203,6 +208,11 @@ class CallMixin(CompMixin):
         if isinstance(v, VOpaque):
             return v.name
         raise Unsupported(f"type of {v!r}")
+
+    def isinstance_t(self, st, v, cls):
+        if isinstance(v, VDyn):
+            return t_or(*[v.tag == i for i, (ty, a) in enumerate(v.alts) if self.isinstance(st, a, cls)])
+        return z3.BoolVal(self.isinstance(st, v, cls))
 
     def isinstance(self, st, v, cls):
         names = [c.name for c in cls.items] if isinstance(cls, VTuple) else [cls.name]
@@ -237,6 +247,8 @@ class CallMixin(CompMixin):
         raise Unsupported(f"hasattr on {v!r}")
 
     def convert(self, st, name, a, node):
+        if a and isinstance(a[0], VDyn):
+            return self.dyn_apply(st, a[0], lambda x: self.convert(st, name, [x] + list(a[1:]), node))
         if not a:
             return {"float": VReal(0), "int": VInt(0), "str": VStr(""), "bool": VBool(False)}[name]
         v = a[0]
@@ -255,7 +267,7 @@ class CallMixin(CompMixin):
             if isinstance(v, VStr):
                 ok = self.ctx.ufunc("parses_int", z3.StringSort(), z3.BoolSort())
                 val = self.ctx.ufunc("int_of_str", z3.StringSort(), z3.IntSort())
-                if not self.decide(st, ok(v.t)):
+                if not st.frame.spec and not self.decide(st, ok(v.t)):
                     self.do_raise(st, VExc("ValueError", ()))
                     raise PathDone()
                 return VInt(val(v.t))
@@ -269,7 +281,7 @@ class CallMixin(CompMixin):
             if isinstance(v, VStr):
                 ok = self.ctx.ufunc("parses_float", z3.StringSort(), z3.BoolSort())
                 val = self.ctx.ufunc("float_of_str", z3.StringSort(), z3.RealSort())
-                if not self.decide(st, ok(v.t)):
+                if not st.frame.spec and not self.decide(st, ok(v.t)):
                     self.do_raise(st, VExc("ValueError", ()))
                     raise PathDone()
                 return VReal(val(v.t))
@@ -487,6 +499,8 @@ class CallMixin(CompMixin):
 
     def call_method(self, st, recv, name, args, kw, node):
         recv = self.force(st, recv)
+        if isinstance(recv, VDyn):
+            return self.dyn_apply(st, recv, lambda x: self.call_method(st, x, name, args, kw, node))
         if isinstance(recv, VStr):
             return self.str_method(st, recv, name, [self.force(st, a) for a in args], kw, node)
         if isinstance(recv, VRec):
